@@ -11,6 +11,11 @@ pub struct Context<'a, CT> {
     pub cache: &'a SharedCache,
     // request state
     question_stack: Vec<Question>,
+    /// How many more questions may be pushed over the whole lifetime of this
+    /// request.  The stack depth alone does not bound the work: nested
+    /// nameserver lookups can revisit the same questions along factorially
+    /// many different paths without ever going deeper than the limit.
+    question_budget: usize,
     metrics: Metrics,
 }
 
@@ -21,6 +26,7 @@ impl<'a, CT> Context<'a, CT> {
             zones,
             cache,
             question_stack: Vec::with_capacity(recursion_limit),
+            question_budget: recursion_limit.saturating_mul(recursion_limit),
             metrics: Metrics::new(),
         }
     }
@@ -34,7 +40,7 @@ impl<'a, CT> Context<'a, CT> {
     }
 
     pub fn at_recursion_limit(&self) -> bool {
-        self.question_stack.len() == self.question_stack.capacity()
+        self.question_stack.len() == self.question_stack.capacity() || self.question_budget == 0
     }
 
     pub fn is_duplicate_question(&self, question: &Question) -> bool {
@@ -42,6 +48,7 @@ impl<'a, CT> Context<'a, CT> {
     }
 
     pub fn push_question(&mut self, question: &Question) {
+        self.question_budget = self.question_budget.saturating_sub(1);
         self.question_stack.push(question.clone());
     }
 
